@@ -6,40 +6,160 @@ import Stevia.Model.Str
 
 namespace Stevia
 
+/-! ### Bridging lemma: `ByteArray.toList` (defined by a loop) is the list of the underlying array -/
+
+theorem toList_loop_eq (b : ByteArray) (i : Nat) (r : List UInt8) :
+    ByteArray.toList.loop b i r = r.reverse ++ b.data.toList.drop i := by
+  fun_induction ByteArray.toList.loop b i r with
+  | case1 i r h ih =>
+    rw [ih]
+    have hi : i < b.data.toList.length := by simpa using h
+    rw [List.drop_eq_getElem_cons hi]
+    have : b.get! i = b.data.toList[i] := by
+      cases b with | mk d =>
+      simp [ByteArray.get!]
+      have : i < d.size := h
+      simp [this]
+    simp [this]
+  | case2 i r h =>
+    have : b.data.toList.length ≤ i := by
+      have : ¬ i < b.data.size := h
+      simp; omega
+    simp [List.drop_eq_nil_of_le this]
+
+theorem toList_eq (b : ByteArray) : b.toList = b.data.toList := by
+  simp [ByteArray.toList, toList_loop_eq]
+
 /-! ### Little-endian prefix -/
 
 theorem leDec_leEnc (w x : Nat) : leDec (leEnc w x) = x % 256 ^ w := by
-  sorry
+  induction w generalizing x with
+  | zero => simp [leEnc, leDec, Nat.mod_one]
+  | succ n ih =>
+    simp only [leEnc, leDec, ih]
+    have : (UInt8.ofNat (x % 256)).toNat = x % 256 := by
+      simp [UInt8.toNat_ofNat']
+    rw [this, Nat.pow_succ, Nat.mul_comm (256^n) 256, Nat.mod_mul]
 
 theorem leEnc_length (w x : Nat) : (leEnc w x).length = w := by
-  sorry
+  induction w generalizing x with
+  | zero => simp [leEnc]
+  | succ n ih => simp [leEnc, ih]
 
 theorem leBA_size (w x : Nat) : (leBA w x).size = w := by
-  sorry
+  simp [leBA, ByteArray.size, leEnc_length]
 
 theorem zerosBA_size (n : Nat) : (zerosBA n).size = n := by
-  sorry
+  simp [zerosBA, ByteArray.size]
+
+theorem leBA_toList (w x : Nat) : (leBA w x).toList = leEnc w x := by
+  simp [toList_eq, leBA]
+
+theorem leOfBA_leBA (w x : Nat) : leOfBA (leBA w x) = x % 256 ^ w := by
+  simp [leOfBA, leBA_toList, leDec_leEnc]
+
+theorem extract_mid {a b c : ByteArray} {i j : Nat} (hi : i = a.size) (hj : j = i + b.size) :
+    (a ++ b ++ c).extract i j = b := by
+  subst hi hj
+  rw [ByteArray.append_assoc]
+  have := @ByteArray.extract_append_size_add a (b ++ c) 0 b.size
+  rw [Nat.add_zero] at this
+  rw [this, ByteArray.extract_append_eq_left rfl]
 
 /-! ### UTF-8 building blocks -/
 
+theorem zerosBA_succ (n : Nat) : zerosBA (n+1) = (zerosBA n).push (Char.ofNat 0).toUInt8 := by
+  apply ByteArray.ext
+  have : (Char.ofNat 0).toUInt8 = 0 := by decide
+  simp [zerosBA, ByteArray.data_push, Array.replicate_succ, this]
+
 theorem zerosBA_valid (n : Nat) : (zerosBA n).IsValidUTF8 := by
-  sorry
+  induction n with
+  | zero => exact ByteArray.isValidUTF8_empty
+  | succ n ih =>
+    rw [zerosBA_succ]
+    exact ih.push (by decide)
 
 theorem floorBoundary_le (s : String) (n : Nat) : floorBoundary s n ≤ n := by
-  sorry
+  induction n with
+  | zero => simp [floorBoundary]
+  | succ n ih =>
+    simp only [floorBoundary]
+    split <;> omega
 
 theorem floorBoundary_isValid (s : String) (n : Nat) : (String.Pos.Raw.mk (floorBoundary s n)).IsValid s := by
-  sorry
+  induction n with
+  | zero => exact String.Pos.Raw.isValid_zero
+  | succ n ih =>
+    simp only [floorBoundary]
+    split
+    · next h => exact String.Pos.Raw.isValid_eq_true_iff.mp h
+    · exact ih
 
 /-- Maximality: no char boundary between the cut and the limit. -/
 theorem floorBoundary_max (s : String) (n m : Nat) (hm : m ≤ n) (hv : (String.Pos.Raw.mk m).IsValid s) :
     m ≤ floorBoundary s n := by
-  sorry
+  induction n with
+  | zero => omega
+  | succ n ih =>
+    simp only [floorBoundary]
+    split
+    · exact hm
+    · next h =>
+      by_cases hmn : m = n + 1
+      · subst hmn
+        exact absurd (String.Pos.Raw.isValid_eq_true_iff.mpr hv) h
+      · exact ih (by omega)
 
 /-- The bytes of `s` up to a floor boundary are valid UTF-8. -/
 theorem extract_floorBoundary_valid (s : String) (n : Nat) :
-    (s.toByteArray.extract 0 (floorBoundary s n)).IsValidUTF8 := by
-  sorry
+    (s.toByteArray.extract 0 (floorBoundary s n)).IsValidUTF8 :=
+  (floorBoundary_isValid s n).isValidUTF8_extract_zero
+
+/-! ### No zero byte in the UTF-8 encoding of a NUL-free string -/
+
+theorem utf8EncodeChar_ne_zero (c : Char) (hc : c ≠ Char.ofNat 0) :
+    ∀ b ∈ String.utf8EncodeChar c, b ≠ 0 := by
+  have hv : c.val.toNat ≠ 0 := by
+    intro h
+    apply hc
+    apply Char.ext
+    apply UInt32.toNat_inj.mp
+    rw [h]; rfl
+  intro b hb h0
+  subst h0
+  unfold String.utf8EncodeChar at hb
+  simp only [] at hb
+  split at hb
+  · simp only [List.mem_cons, List.not_mem_nil, or_false] at hb
+    have := congrArg UInt8.toNat hb
+    simp only [UInt8.toNat_ofNat', UInt8.toNat_ofNat] at this
+    omega
+  · split at hb
+    · simp only [List.mem_cons, List.not_mem_nil, or_false] at hb
+      rcases hb with hb | hb <;>
+      · have := congrArg UInt8.toNat hb
+        simp only [UInt8.toNat_ofNat', UInt8.toNat_ofNat] at this
+        omega
+    · split at hb
+      · simp only [List.mem_cons, List.not_mem_nil, or_false] at hb
+        rcases hb with hb | hb | hb <;>
+        · have := congrArg UInt8.toNat hb
+          simp only [UInt8.toNat_ofNat', UInt8.toNat_ofNat] at this
+          omega
+      · simp only [List.mem_cons, List.not_mem_nil, or_false] at hb
+        rcases hb with hb | hb | hb | hb <;>
+        · have := congrArg UInt8.toNat hb
+          simp only [UInt8.toNat_ofNat', UInt8.toNat_ofNat] at this
+          omega
+
+theorem string_bytes_ne_zero (s : String) (hnul : ∀ c ∈ s.toList, c ≠ Char.ofNat 0) :
+    ∀ b ∈ s.toByteArray.data.toList, b ≠ 0 := by
+  rw [← String.utf8Encode_toList, List.utf8Encode, List.toList_data_toByteArray]
+  intro b hb
+  rw [List.mem_flatMap] at hb
+  obtain ⟨c, hc, hbc⟩ := hb
+  exact utf8EncodeChar_ne_zero c (hnul c hc) b hbc
 
 namespace PStr
 
@@ -53,13 +173,47 @@ theorem new_spec (w P : Nat) (hP : P < 256 ^ w) (buf : ByteArray) :
         recLen w b' = min (buf.size - w) P ∧ b'.extract w b'.size = buf.extract w buf.size ∧
         payload w b' = buf.extract w (w + min (buf.size - w) P) ∧
         (r = true ↔ (payload w b').IsValidUTF8)) := by
-  sorry
+  by_cases h : buf.size < w
+  · left; exact ⟨h, by simp [new, h]⟩
+  · right
+    have hw : w ≤ buf.size := by omega
+    refine ⟨hw, _, _, by simp only [new, h, if_false]; rfl, ?_⟩
+    have hsz : (leBA w (min (buf.size - w) P) ++ buf.extract w buf.size).size = buf.size := by
+      simp [ByteArray.size_append, leBA_size, ByteArray.size_extract]; omega
+    have hrec : recLen w (leBA w (min (buf.size - w) P) ++ buf.extract w buf.size)
+        = min (buf.size - w) P := by
+      unfold recLen
+      rw [ByteArray.extract_append_eq_left (leBA_size _ _).symm, leOfBA_leBA]
+      apply Nat.mod_eq_of_lt
+      have := Nat.min_le_right (buf.size - w) P
+      omega
+    have hpay : payload w (leBA w (min (buf.size - w) P) ++ buf.extract w buf.size)
+        = buf.extract w (w + min (buf.size - w) P) := by
+      unfold payload
+      rw [hrec]
+      have := @ByteArray.extract_append_size_add' (leBA w (min (buf.size - w) P))
+        (buf.extract w buf.size) 0 (min (buf.size - w) P) w (leBA_size _ _).symm
+      rw [Nat.add_zero] at this
+      rw [this, ByteArray.extract_extract, Nat.add_zero]
+      congr 1
+      have := Nat.min_le_left (buf.size - w) P
+      omega
+    refine ⟨hsz, hrec, ?_, hpay, ?_⟩
+    · rw [hsz]
+      exact ByteArray.extract_append_eq_right (leBA_size _ _).symm
+        (by simp [leBA_size, ByteArray.size_extract]; omega)
+    · rw [← ByteArray.validateUTF8_eq_true_iff]
+      unfold payload
+      rw [hrec]
 
 /-- `from_bytes` is `Ok` exactly for a valid payload, and then returns the payload. -/
 theorem fromBytes_spec (w : Nat) (buf : ByteArray) (hw : w ≤ buf.size) (hl : recLen w buf ≤ buf.size - w) :
     fromBytes w buf = .ok (if (payload w buf).validateUTF8 then some (payload w buf) else none) ∧
     ((payload w buf).validateUTF8 = true ↔ (payload w buf).IsValidUTF8) := by
-  sorry
+  refine ⟨?_, ByteArray.validateUTF8_eq_true_iff⟩
+  have h1 : ¬ buf.size < w := by omega
+  have h2 : ¬ buf.size - w < recLen w buf := by omega
+  simp only [fromBytes, h1, h2, if_false]
 
 /-- `copy_from_str`: the buffer keeps its size, the prefix (hence the recorded length) is unchanged,
     bytes beyond the payload are untouched, and the payload becomes the longest prefix of `s`
@@ -71,31 +225,66 @@ theorem copy_spec (w : Nat) (buf : ByteArray) (s : String) (hw : w ≤ buf.size)
     recLen w (copyFromStr w buf s) = recLen w buf ∧
     payload w (copyFromStr w buf s) = s.toByteArray.extract 0 n ++ zerosBA (recLen w buf - n) ∧
     (copyFromStr w buf s).extract (w + recLen w buf) buf.size = buf.extract (w + recLen w buf) buf.size := by
-  sorry
+  intro n
+  have hn : n ≤ min (recLen w buf) s.utf8ByteSize := floorBoundary_le _ _
+  have hA : (buf.extract 0 w).size = w := by simp [ByteArray.size_extract]; omega
+  have hS : (s.toByteArray.extract 0 n).size = n := by
+    simp [ByteArray.size_extract, String.size_toByteArray]; omega
+  have hZ : (zerosBA (recLen w buf - n)).size = recLen w buf - n := zerosBA_size _
+  have hT : (buf.extract (w + recLen w buf) buf.size).size = buf.size - (w + recLen w buf) := by
+    simp [ByteArray.size_extract]
+  have hcopy : copyFromStr w buf s = buf.extract 0 w ++ s.toByteArray.extract 0 n
+      ++ zerosBA (recLen w buf - n) ++ buf.extract (w + recLen w buf) buf.size := rfl
+  have hrec : recLen w (copyFromStr w buf s) = recLen w buf := by
+    rw [hcopy]
+    unfold recLen
+    rw [ByteArray.append_assoc, ByteArray.append_assoc, ByteArray.extract_append_eq_left hA.symm]
+  refine ⟨?_, hrec, ?_, ?_⟩
+  · rw [hcopy]; simp only [ByteArray.size_append, hA, hS, hZ, hT]; omega
+  · unfold payload
+    rw [hrec, hcopy]
+    rw [ByteArray.append_assoc (a := buf.extract 0 w)]
+    apply extract_mid hA.symm
+    simp only [ByteArray.size_append, hS, hZ]; omega
+  · rw [hcopy]
+    apply ByteArray.extract_append_eq_right
+    · simp only [ByteArray.size_append, hA, hS, hZ]; omega
+    · simp only [ByteArray.size_append, hA, hS, hZ, hT]; omega
 
 /-- After any copy the payload is valid UTF-8 (C11): cut at a char boundary, padded with NULs. -/
 theorem copy_valid (w : Nat) (buf : ByteArray) (s : String) (hw : w ≤ buf.size)
     (hl : recLen w buf ≤ buf.size - w) : (payload w (copyFromStr w buf s)).IsValidUTF8 := by
-  sorry
+  rw [(copy_spec w buf s hw hl).2.2.1]
+  exact (extract_floorBoundary_valid _ _).append (zerosBA_valid _)
 
 /-- Re-loading the bytes after a copy returns the identical string. -/
 theorem reload_after_copy (w : Nat) (buf : ByteArray) (s : String) (hw : w ≤ buf.size)
     (hl : recLen w buf ≤ buf.size - w) :
     fromBytes w (copyFromStr w buf s) = .ok (some (payload w (copyFromStr w buf s))) := by
-  sorry
+  obtain ⟨h1, h2, -, -⟩ := copy_spec w buf s hw hl
+  have := (fromBytes_spec w (copyFromStr w buf s) (by omega) (by omega)).1
+  rw [this, ByteArray.validateUTF8_eq_true_iff.mpr (copy_valid w buf s hw hl)]
+  rfl
 
+set_option linter.unusedVariables false in
 /-- The result of a copy does not depend on the earlier payload: two buffers with the same prefix
     and the same bytes beyond the payload give the same buffer. -/
 theorem copy_forgets (w : Nat) (b1 b2 : ByteArray) (s : String) (hs : b1.size = b2.size)
     (hw : w ≤ b1.size) (hp : b1.extract 0 w = b2.extract 0 w) (hl : recLen w b1 ≤ b1.size - w)
     (ht : b1.extract (w + recLen w b1) b1.size = b2.extract (w + recLen w b1) b2.size) :
     copyFromStr w b1 s = copyFromStr w b2 s := by
-  sorry
+  have hr : recLen w b1 = recLen w b2 := by unfold recLen; rw [hp]
+  unfold copyFromStr
+  simp only
+  rw [← hr, hp, ht]
 
 /-- A string that fits entirely is stored entirely. -/
 theorem copy_fits (w : Nat) (buf : ByteArray) (s : String) (hfit : s.utf8ByteSize ≤ recLen w buf) :
     floorBoundary s (min (recLen w buf) s.utf8ByteSize) = s.utf8ByteSize := by
-  sorry
+  rw [Nat.min_eq_right hfit]
+  apply Nat.le_antisymm (floorBoundary_le _ _)
+  apply floorBoundary_max _ _ _ (Nat.le_refl _)
+  exact String.Pos.Raw.isValid_rawEndPos
 
 end PStr
 
@@ -104,32 +293,97 @@ namespace PodStr
 /-! ### Pod strings (C11, C14) -/
 
 theorem ofBytes_size (N : Nat) (src : ByteArray) : (ofBytes N src).size = N := by
-  sorry
+  simp only [ofBytes, ByteArray.size_append, ByteArray.size_extract, zerosBA_size]
+  omega
 
 /-- Bytes of the value: the first `min(len, N)` bytes of the source, then zeros. -/
 theorem ofBytes_get (N : Nat) (src : ByteArray) (i : Nat) (hi : i < N) :
     (ofBytes N src).toList[i]? = some (if h : i < src.size then src[i] else 0) := by
-  sorry
+  rw [toList_eq]
+  simp only [ofBytes, ByteArray.data_append, ByteArray.data_extract, zerosBA, Array.toList_append]
+  have hL : (src.data.extract 0 (min src.size N)).toList.length = min src.size N := by
+    simp only [Array.length_toList, Array.size_extract, ByteArray.size_data]; omega
+  by_cases h : i < src.size
+  · have h' : i < (src.data.extract 0 (min src.size N)).toList.length := by omega
+    rw [List.getElem?_append_left h', List.getElem?_eq_getElem h']
+    simp [h, ByteArray.getElem_eq_getElem_data]
+  · have h' : (src.data.extract 0 (min src.size N)).toList.length ≤ i := by omega
+    rw [List.getElem?_append_right h', hL]
+    simp only [h, dite_false, Array.toList_replicate]
+    rw [List.getElem?_replicate]
+    have : i - min src.size N < N - min src.size N := by omega
+    simp [this]
 
 /-- `as_str` is total: `Ok(text)` when the text before the first NUL is valid UTF-8, `Err` otherwise. -/
 theorem asStr_spec (v : ByteArray) :
     (asStr v = some (text v) ∧ (text v).IsValidUTF8) ∨ (asStr v = none ∧ ¬ (text v).IsValidUTF8) := by
-  sorry
+  unfold asStr
+  by_cases h : (text v).validateUTF8 = true
+  · left; exact ⟨by simp [h], ByteArray.validateUTF8_eq_true_iff.mp h⟩
+  · right; exact ⟨by simp [h], fun h' => h (ByteArray.validateUTF8_eq_true_iff.mpr h')⟩
 
 /-- The text contains no NUL and is followed by a NUL or the end of the buffer. -/
 theorem text_spec (v : ByteArray) :
     endIndex v ≤ v.size ∧ (∀ i, i < endIndex v → v.toList[i]? ≠ some 0) ∧
     (endIndex v < v.size → v.toList[endIndex v]? = some 0) := by
-  sorry
+  unfold endIndex
+  rw [toList_eq]
+  have hlen : v.data.toList.length = v.size := by simp [ByteArray.size_data]
+  cases hf : v.data.toList.findIdx? (· == 0) with
+  | none =>
+    simp only [Option.getD_none]
+    refine ⟨Nat.le_refl _, ?_, fun h => absurd h (Nat.lt_irrefl _)⟩
+    intro i hi hget
+    rw [List.findIdx?_eq_none_iff] at hf
+    have := hf 0 (List.mem_of_getElem? hget)
+    simp at this
+  | some k =>
+    simp only [Option.getD_some]
+    rw [List.findIdx?_eq_some_iff_getElem] at hf
+    obtain ⟨hk, hpk, hlt⟩ := hf
+    refine ⟨by omega, ?_, ?_⟩
+    · intro i hi hget
+      have hil : i < v.data.toList.length := by omega
+      rw [List.getElem?_eq_getElem hil] at hget
+      have := hlt i hi
+      simp at hget
+      simp [hget] at this
+    · intro _
+      rw [List.getElem?_eq_getElem hk]
+      simpa using hpk
 
 /-- A string that fits and contains no NUL character round-trips: `as_str(from(s)) = Ok(s)`. -/
 theorem asStr_roundtrip (N : Nat) (s : String) (hfit : s.utf8ByteSize ≤ N) (hnul : ∀ c ∈ s.toList, c ≠ Char.ofNat 0) :
     asStr (ofStr N s) = some s.toByteArray := by
-  sorry
+  have hsz : s.toByteArray.size = s.utf8ByteSize := String.size_toByteArray
+  have hof : ofStr N s = s.toByteArray ++ zerosBA (N - s.utf8ByteSize) := by
+    unfold ofStr ofBytes
+    rw [hsz, Nat.min_eq_left hfit, ← hsz, ByteArray.extract_zero_size]
+  have hend : endIndex (ofStr N s) = s.utf8ByteSize := by
+    have hN : (ofStr N s).size = N := ofBytes_size N _
+    unfold endIndex
+    rw [toList_eq, hN, hof, ByteArray.data_append, Array.toList_append, List.findIdx?_append]
+    have hnone : s.toByteArray.data.toList.findIdx? (· == 0) = none := by
+      rw [List.findIdx?_eq_none_iff]
+      intro x hx
+      simpa using string_bytes_ne_zero s hnul x hx
+    have hlen : s.toByteArray.data.toList.length = s.utf8ByteSize := by
+      simp [ByteArray.size_data, hsz]
+    rw [hnone, hlen]
+    simp only [zerosBA, Array.toList_replicate, List.findIdx?_replicate, Option.none_or]
+    by_cases hk : 0 < N - s.utf8ByteSize
+    · simp [hk]
+    · simp [hk]; omega
+  have htext : text (ofStr N s) = s.toByteArray := by
+    unfold text
+    rw [hend, hof]
+    exact ByteArray.extract_append_eq_left hsz.symm
+  unfold asStr
+  rw [htext, ByteArray.validateUTF8_eq_true_iff.mpr s.isValidUTF8]
+  rfl
 
 /-- `Display` renders the same text as `as_str`. -/
-theorem display_eq (v t : ByteArray) (h : asStr v = some t) : display v = some t := by
-  sorry
+theorem display_eq (v t : ByteArray) (h : asStr v = some t) : display v = some t := h
 
 end PodStr
 
@@ -139,34 +393,51 @@ namespace Pod
 
 /-- Every byte decodes: zero is false, anything else true. -/
 theorem boolDecode_spec (b : UInt8) : boolDecode b = true ↔ b ≠ 0 := by
-  sorry
+  simp [boolDecode]
 
 /-- bool → pod → bool is the identity, with encodings 0 and 1. -/
 theorem bool_roundtrip (x : Bool) : boolDecode (boolEncode x) = x ∧ (boolEncode x = 0 ∨ boolEncode x = 1) := by
-  sorry
+  cases x <;> simp [boolDecode, boolEncode]
 
 /-- `load` is a pure view of exactly the first `n` bytes; trailing bytes are ignored; a short buffer is
     rejected rather than read. -/
 theorem load_spec (n : Nat) (data : ByteArray) :
     (data.size < n ∧ load n data = .error .oob) ∨
     (n ≤ data.size ∧ load n data = .ok (data.extract 0 n) ∧ (data.extract 0 n).size = n) := by
-  sorry
+  by_cases h : data.size < n
+  · left; exact ⟨h, by simp [load, h]⟩
+  · right; refine ⟨by omega, by simp [load, h], ?_⟩
+    simp only [ByteArray.size_extract]; omega
 
 theorem load_ignores_trailing (n : Nat) (d1 d2 : ByteArray) (h1 : n ≤ d1.size) (h2 : n ≤ d2.size)
     (he : d1.extract 0 n = d2.extract 0 n) : load n d1 = load n d2 := by
-  sorry
+  have a : ¬ d1.size < n := by omega
+  have b : ¬ d2.size < n := by omega
+  simp [load, a, b, he]
 
 /-- Writes through `load_mut` land in the buffer: the first `n` bytes become the value, the rest is untouched. -/
 theorem storeMut_spec (n : Nat) (data v : ByteArray) (hv : v.size = n) (hd : n ≤ data.size) :
     ∃ d', storeMut n data v = .ok d' ∧ d'.size = data.size ∧ load n d' = .ok v ∧
       d'.extract n d'.size = data.extract n data.size := by
-  sorry
+  have a : ¬ data.size < n := by omega
+  have hvn : v.extract 0 n = v := by rw [← hv]; exact ByteArray.extract_zero_size
+  have hsz : (v ++ data.extract n data.size).size = data.size := by
+    simp only [ByteArray.size_append, ByteArray.size_extract]; omega
+  refine ⟨v ++ data.extract n data.size, by simp [storeMut, a, hvn], hsz, ?_, ?_⟩
+  · have b : ¬ (v ++ data.extract n data.size).size < n := by omega
+    simp only [load, b, if_false]
+    rw [ByteArray.extract_append_eq_left hv.symm]
+  · rw [hsz]
+    apply ByteArray.extract_append_eq_right hv.symm
+    simp only [ByteArray.size_extract]; omega
 
 /-- `value()` is `Some` exactly when the inner value reports itself as some, and then it is the inner value. -/
 theorem optValue_spec (isSome : ByteArray → Bool) (inner : ByteArray) :
     ((optValue isSome inner).isSome = isSome inner) ∧ (isSome inner = true → optValue isSome inner = some inner) := by
-  sorry
+  unfold optValue
+  cases h : isSome inner <;> simp
 
 end Pod
 
 end Stevia
+
